@@ -1,6 +1,7 @@
 (* C18 — endpoint strings parse to the same endpoint they describe. Statements only. *)
 From Coq Require Import List NArith ZArith.
 From TarsV Require Import Base.Hex Endpoint.Parse Endpoint.ParseProofs.
+From TarsV Require Xlate.ParseEquiv.
 Import ListNotations.
 Open Scope Z_scope.
 
